@@ -10,7 +10,7 @@ var nameClasses = map[string][]string{
 	"bullets": {"- x", "* y", "a-b", "+", "-", "*", "#tag", "x # y", "a - b * c + d", "--", "-x"},
 	"blanks":  {" lead", "trail ", "in  side", "\ttab", " ", "a\tb", "  two"},
 	"unicode": {"日本語", "é", "😀", "a\u00a0b", "\u3000x", "x\u2028y", "\u0085n", "ｆｕｌｌ", "\u00a0"},
-	"quotes":  {`"q"`, "a: b", `back\slash`, "x\x01y", "'s'", "{j}", "[l]", "null", "true", "1.5", "k=v", "a,b", "<a>&b", "x<y", "R&D"},
+	"quotes":  {`"q"`, "a: b", `back\slash`, "x\x01y", "'s'", "{j}", "[l]", "null", "true", "1.5", "k=v", "a,b", "<a>&b", "x<y", "R&D", "100%", "%d", "%s%v", "cpu%d.log"},
 	"path":    {"..", ".", "a/b", "/abs", "x/", "...", ".hidden", "a..b"},
 }
 
@@ -84,6 +84,8 @@ func coveringSpellings() []Spelling {
 		{IndentChar: ' ', Unit: 6, Bullets: "*", FinalNL: true, CRLF: true, BlankEvery: 3, BlankRow: "  "},
 		{IndentChar: '\t', Unit: 1, Bullets: "-", FinalNL: true, Sharp: true, LeadBlank: true, BlankRow: ""},
 		{IndentChar: ' ', Unit: 7, Bullets: "-*", FinalNL: false},
+		{IndentChar: ' ', Unit: 2, Bullets: "-", FinalNL: true, NoSpace: true},
+		{IndentChar: '\t', Unit: 1, Bullets: "*+", FinalNL: true, NoSpace: true, Sharp: true},
 	}
 }
 
@@ -101,6 +103,7 @@ func randSpelling(r *rand.Rand) Spelling {
 		s.BlankRow = []string{"", " ", "\t", "   ", "　", " \t"}[r.Intn(6)]
 	}
 	s.LeadBlank = r.Intn(5) == 0
+	s.NoSpace = r.Intn(8) == 0
 	return s
 }
 
